@@ -1,1 +1,148 @@
-//! harnesses for c18 (filled in below)
+//! C18 — simplex volume (closed-form branches, D ≤ 3) against the exact rational value.
+
+use crate::util::*;
+use delaunay::geometry::point::Point;
+use delaunay::geometry::traits::coordinate::Coordinate;
+use delaunay::geometry::util::measures::simplex_volume;
+
+/// `Ok(v)` ⇒ exact |det| ≠ 0 and |v·D! − |det|| ≤ 1e-9·|det|; exact det = 0 ⇒ `Err`.
+/// `scale_pow` = scale^D for lattices scaled by an exact power of two.
+fn check_volume(got: Result<f64, ()>, abs_det: i64, dfact: f64, scale_pow: f64) {
+    let exact = (abs_det as f64) * scale_pow / dfact; // exact up to one rounding of the division
+    match got {
+        Ok(v) => {
+            assert!(abs_det != 0, "a degenerate simplex must be reported as an error, not a finite volume");
+            assert!((v - exact).abs() <= 1e-9 * exact, "volume agrees with the exact value to relative 1e-9");
+        }
+        Err(()) => {
+            // the library documents an absolute degeneracy threshold of 1e-12; only volumes above it are demanded
+            assert!(abs_det == 0 || exact < 1e-12, "a non-degenerate simplex has a volume");
+        }
+    }
+}
+
+harness! {
+    // bound: simplex_volume D=1, endpoints any i16 integers
+    #[kani::unwind(4)]
+    fn c18_volume_1d_i16() {
+        let a: i16 = kani::any();
+        let b: i16 = kani::any();
+        let pts = [Point::new([f64::from(a)]), Point::new([f64::from(b)])];
+        let got = simplex_volume(&pts).map_err(|_| ());
+        let det = (i64::from(a) - i64::from(b)).abs();
+        check_volume(got, det, 1.0, 1.0);
+        kani::cover!(det == 0, "degenerate reached");
+        kani::cover!(det > 0, "non-degenerate reached");
+        core::mem::forget(got);
+    }
+}
+
+macro_rules! volume2d {
+    ($name:ident, $g:literal) => {
+        harness! {
+            // bound: simplex_volume D=2, 3 points with integer coordinates in [-G, G]
+            #[kani::unwind(5)]
+            fn $name() {
+                let mut ip = [[0_i64; 2]; 3];
+                let mut pts = [Point::new([0.0, 0.0]); 3];
+                let mut i = 0;
+                while i < 3 {
+                    let x = any_grid($g);
+                    let y = any_grid($g);
+                    ip[i] = [i64::from(x), i64::from(y)];
+                    pts[i] = Point::new([f64::from(x), f64::from(y)]);
+                    i += 1;
+                }
+                let det = det3([[ip[0][0], ip[0][1], 1], [ip[1][0], ip[1][1], 1], [ip[2][0], ip[2][1], 1]]).abs();
+                let got = simplex_volume(&pts).map_err(|_| ());
+                check_volume(got, det, 2.0, 1.0);
+                kani::cover!(det == 0, "degenerate reached");
+                kani::cover!(det == 1, "smallest non-degenerate triangle reached");
+                kani::cover!(det > 1, "larger triangle reached");
+                core::mem::forget(got);
+            }
+        }
+    };
+}
+
+volume2d!(c18_volume_2d_g2, 2);
+volume2d!(c18_volume_2d_g8, 8);
+volume2d!(c18_volume_2d_g32, 32);
+
+harness! {
+    // bound: simplex_volume D=2 on dyadic lattices 2^-k * [-4,4]^2, k symbolic in 0..=12 (scaling law: factor 4^-k)
+    #[kani::unwind(5)]
+    fn c18_volume_2d_dyadic_g4() {
+        let k: u8 = kani::any();
+        kani::assume(k <= 12);
+        let scale = f64::from_bits((1023_u64 - u64::from(k)) << 52);
+        let mut ip = [[0_i64; 2]; 3];
+        let mut pts = [Point::new([0.0, 0.0]); 3];
+        let mut i = 0;
+        while i < 3 {
+            let x = any_grid(4);
+            let y = any_grid(4);
+            ip[i] = [i64::from(x), i64::from(y)];
+            pts[i] = Point::new([f64::from(x) * scale, f64::from(y) * scale]);
+            i += 1;
+        }
+        let det = det3([[ip[0][0], ip[0][1], 1], [ip[1][0], ip[1][1], 1], [ip[2][0], ip[2][1], 1]]).abs();
+        let got = simplex_volume(&pts).map_err(|_| ());
+        check_volume(got, det, 2.0, scale * scale);
+        kani::cover!(det == 0, "degenerate reached");
+        kani::cover!(det == 1 && k == 12, "smallest triangle at the smallest scale reached");
+        core::mem::forget(got);
+    }
+}
+
+macro_rules! volume3d {
+    ($name:ident, $g:literal) => {
+        harness! {
+            // bound: simplex_volume D=3, 4 points with integer coordinates in [-G, G]
+            #[kani::unwind(6)]
+            fn $name() {
+                let mut ip = [[0_i64; 3]; 4];
+                let mut pts = [Point::new([0.0, 0.0, 0.0]); 4];
+                let mut i = 0;
+                while i < 4 {
+                    let x = any_grid($g);
+                    let y = any_grid($g);
+                    let z = any_grid($g);
+                    ip[i] = [i64::from(x), i64::from(y), i64::from(z)];
+                    pts[i] = Point::new([f64::from(x), f64::from(y), f64::from(z)]);
+                    i += 1;
+                }
+                let det = det4([
+                    [ip[0][0], ip[0][1], ip[0][2], 1],
+                    [ip[1][0], ip[1][1], ip[1][2], 1],
+                    [ip[2][0], ip[2][1], ip[2][2], 1],
+                    [ip[3][0], ip[3][1], ip[3][2], 1],
+                ]).abs();
+                let got = simplex_volume(&pts).map_err(|_| ());
+                check_volume(got, det, 6.0, 1.0);
+                kani::cover!(det == 0, "degenerate reached");
+                kani::cover!(det == 1, "smallest non-degenerate tetrahedron reached");
+                kani::cover!(det > 1, "larger tetrahedron reached");
+                core::mem::forget(got);
+            }
+        }
+    };
+}
+
+volume3d!(c18_volume_3d_g1, 1);
+volume3d!(c18_volume_3d_g2, 2);
+
+harness! {
+    // bound: simplex_volume D=2 with any slice length 0..=5: Err unless exactly 3 points
+    #[kani::unwind(7)]
+    fn c18_volume_2d_wrong_arity() {
+        let n: usize = kani::any();
+        kani::assume(n <= 5);
+        let pts = [Point::new([0.0, 0.0]), Point::new([1.0, 0.0]), Point::new([0.0, 1.0]), Point::new([2.0, 2.0]), Point::new([3.0, 1.0])];
+        let got = simplex_volume(&pts[..n]);
+        assert!(got.is_ok() == (n == 3), "wrong number of points is an error");
+        kani::cover!(n == 3, "valid arity reached");
+        kani::cover!(n == 0, "empty slice reached");
+        core::mem::forget(got);
+    }
+}
